@@ -35,7 +35,11 @@ ATOMS = [None, True, 0, 1.5, "", "3.0.0", "3.1.0", [], {}]
 KEYS = ["openapi", "info", "paths", "components", "swagger", "title", "version"]
 JUNK = [None, True, 0, -1, 1.5, "", "x", [], [None], {}, {"$ref": "#/components/schemas/Nope"}, {"$ref": "http://remote.example/x.json#/A"},
         {"$ref": "#"}, {"$ref": "#/"}, {"type": "string", "items": {"type": "x"}}, {"enum": []}, {"required": "x", "type": "object"},
-        {"type": "array", "items": {"$ref": "#/components/schemas/Nope"}}, {"allOf": [{"$ref": "#/components/schemas/Nope"}]}, [{"a": 1}], "#/components/schemas/Mm", 2**70]
+        {"type": "array", "items": {"$ref": "#/components/schemas/Nope"}}, {"allOf": [{"$ref": "#/components/schemas/Nope"}]}, [{"a": 1}], "#/components/schemas/Mm", 2**70,
+        # enums of unsupported member types (alone, and inside an object), numeric defaults that are not numbers, references that are not URLs
+        {"enum": [1.5, 2.5]}, {"enum": [True, False]}, {"enum": [[1], [2]]}, {"type": "object", "properties": {"e": {"enum": [1.5]}, "f": {"type": "array", "items": {"enum": [{"a": 1}]}}}},
+        {"type": "integer", "default": "inf"}, {"type": "number", "default": "nan"}, {"type": "integer", "default": 1e400}, {"$ref": "//["}, {"$ref": "http://[::1"},
+        {"type": "string", "format": "date", "default": "2020-13-45"}, {"type": "string", "format": "uuid", "default": 5}, {"const": [1]}, {"type": ["integer", "string"], "default": []}]
 
 
 def _bases():
